@@ -30,7 +30,8 @@ RULE = (
     "trigger-avoiding stream (no operation that hits a known defect) so that the oracle runs to the end; the initial "
     "load from master-file text (dns.zone.from_text with the B-tree zone factory; origin passed or taken from a $ORIGIN "
     "line; relativize on/off; names spelled relative, absolute or @; every permutation of the non-apex records, "
-    "duplicated rdataset lines), compared at the commit and on bounds queries with the model and the definition; all "
+    "duplicated rdataset lines), big zones (250..510 names written in one transaction with the glue before its cut, so "
+    "that update_glue_flag walks full B-tree leaves; cut removed and re-added later), compared at the commit and on bounds queries with the model and the definition; all "
     "permutations of small record sets as load order, split over two transactions at every point; bounds queried "
     "with every name of <= 3 labels over a 3-letter alphabet plus in-zone and out-of-zone extras; a malformed "
     "stream (names outside the origin, over-long names, mixed case, SOA off the apex, first writer not a "
@@ -237,6 +238,7 @@ def evaluate(case):
     cfg = {"rel": rel, "origin": tuple(origin_labels)}
     apex = () if rel else low(origin_labels)
     load = case.get("load")
+    quiet = bool(case.get("quiet"))
     zone = None if load else dns.btreezone.Zone(origin, relativize=rel)
     out, spec_out, fails = [], [], []
     marks = []          # per transaction end / query: does the property hold there? (for the guard implication)
@@ -458,7 +460,7 @@ def evaluate(case):
         stats["ops"] += 1
         name = dns.name.Name(dec_labels(f[1]))
         key = validate_key(cfg, tuple(name.labels))
-        pre_sp = spec_of(txn.version) if not tainted else None
+        pre_sp = spec_of(txn.version) if not (tainted or quiet) else None
         ty = cov = None
         try:
             if f[0] in ("p", "r"):
@@ -494,8 +496,13 @@ def evaluate(case):
         except BaseException as e:
             tok, kind = "FOREIGN:" + type(e).__name__, "error"
             fails.append(("C20/op/foreign-exception:" + type(e).__name__, f"{item} raised {e!r}"))
-        out.append(tok + show_snap(txn.version))
-        after_op(txn.version, (kind, key, ty, cov), pre_sp)
+        if quiet:
+            # big zones: observed at commits and queries only (a failing operation is still visible)
+            if tok != "+":
+                out.append(tok)
+        else:
+            out.append(tok + show_snap(txn.version))
+            after_op(txn.version, (kind, key, ty, cov), pre_sp)
     close()
     # a query "holds" when the implementation's answer is the definition's answer
     bi = [t for t in out if t.startswith("B")]
@@ -564,7 +571,7 @@ def model_items(case):
 
 
 def op_line(case, variant):
-    return (f"{'c20.load' if case.get('load') else 'c20.hist'} {1 if case['rel'] else 0} {enc_labels([bytes.fromhex(x) for x in case['origin']])} {variant} "
+    return (f"{'c20.load' if case.get('load') or case.get('quiet') else 'c20.hist'} {1 if case['rel'] else 0} {enc_labels([bytes.fromhex(x) for x in case['origin']])} {variant} "
             f"{init_bit()} " + " ".join(model_items(case)))
 
 
@@ -950,6 +957,34 @@ def gen_loads(rng):
     return cases
 
 
+def gen_big(rng, total):
+    """a zone of `total` names written in one transaction: several hundred names, the names beneath a cut added
+    *before* the cut's NS rdataset, the NS owner arriving as name number `total` - so that update_glue_flag walks a
+    subtree while the B-tree leaves it sits in are as full as they get (the default B-tree node holds 253 names).
+    A second transaction removes the cut again (nested NS owner beneath it) and re-adds it.  Observed at commits
+    and bounds queries only."""
+    origin = [b"example", b""]
+    rel = rng.chance(1, 2)
+    suf = [] if rel else origin
+    cutl = rng.choice([b"y", b"m", b"g"])            # where the subtree sits among the fillers
+    nglue = rng.choice([2, 3, 5, 17, 60])
+    glue = [[b"n%02d" % i, cutl] for i in range(nglue)] + [[b"deep", b"n00", cutl]]
+    nfill = total - 2 - len(glue)                   # apex + cut + glue + fillers = total
+    fill = [[b"%c%03d" % (rng.choice(b"acfkptz"), i)] for i in range(nfill)]
+    first = rng.shuffle(fill + glue)
+    items = ["T11", f"p:{enc(suf)}:6:0", f"p:{enc(suf)}:2:0"]
+    items += [f"p:{enc(n + suf)}:{16 if len(n) == 1 else 1}:0" for n in first]
+    items.append(f"p:{enc([cutl] + suf)}:2:0")
+    qs = [[cutl], [b"n01", cutl], [b"zz", cutl], [b"n00" + b"0", cutl], [cutl + b"0"], [b"a000"], [b"0"], []]
+    items += ["Q:" + enc(q + suf) for q in qs]
+    # undelegate with an NS owner beneath, and delegate again, in later transactions on committed (shared) leaves
+    items += ["T01", f"p:{enc([b'n00', cutl] + suf)}:2:0", "T01", f"dr:{enc([cutl] + suf)}:2:0"]
+    items += ["Q:" + enc(q + suf) for q in qs[:4]]
+    items += ["T01", f"p:{enc([b'extra', cutl] + suf)}:1:0", f"p:{enc([cutl] + suf)}:2:0"]
+    items += ["Q:" + enc(q + suf) for q in qs[:4]]
+    return {"kind": "hist", "rel": rel, "origin": hexl(origin), "items": items, "quiet": True}
+
+
 def run_case(ctx, c, tag):
     ctx.case((tag, c["rel"], tuple(c["origin"]), tuple(c["items"]), str(c.get("load"))), sample=c)
     ctx.count("gen." + tag)
@@ -971,6 +1006,10 @@ def generate(ctx: Ctx, scale: int, rng):
     for _ in range(n(6)):
         for c in gen_load_orders(rng):
             run_case(ctx, c, "load-order")
+    for total in ([251, 252, 253, 254, 255, 379, 380, 381] if scale == 1 else
+                  list(range(245, 262)) + list(range(372, 390)) + [506, 507, 508, 509]):
+        for _ in range(2 if scale == 1 else 4):
+            run_case(ctx, gen_big(rng, total), "big-zone")
     for _ in range(n(8)):
         for c in gen_loads(rng):
             run_case(ctx, c, "load-text." + ("$ORIGIN" if c["load"]["origin_from_text"] else "origin")
